@@ -179,3 +179,54 @@ Proof.
   rewrite map_length. destruct (nth_error (repeat None (cap - length l)) (i - length l)) as [o|] eqn:E; [|reflexivity].
   apply nth_error_In, repeat_spec in E. now subst.
 Qed.
+
+(* ---- the same closed forms on [slots] buffers *)
+Lemma slots_split l cap : length l < cap -> slots l cap = map Some l ++ None :: repeat None (cap - length l - 1).
+Proof. intros H. unfold slots. remember (cap - length l - 1) as k. replace (cap - length l) with (S k) by lia. reflexivity. Qed.
+Lemma slots_snoc l x cap : length l < cap -> map Some l ++ Some x :: repeat None (cap - length l - 1) = slots (l ++ [x]) cap.
+Proof. intros H. unfold slots. rewrite map_app, app_length. cbn [map length]. rewrite <- app_assoc. cbn [app].
+  do 3 f_equal. lia. Qed.
+Lemma slots_nil cap : slots [] cap = repeat None cap.
+Proof. unfold slots. cbn [map length app]. now rewrite Nat.sub_0_r. Qed.
+
+Lemma construct_slots l x cap : length l < cap -> construct (slots l cap) (length l) x = Ok (slots (l ++ [x]) cap).
+Proof. intros H. rewrite slots_split by lia. rewrite construct_mid'. now rewrite slots_snoc by lia. Qed.
+Lemma rd_slots_last l x cap : length l < cap -> rd (slots (l ++ [x]) cap) (length l) = Ok x.
+Proof. intros H. rewrite <- slots_snoc by lia. apply rd_mid'. Qed.
+Lemma destroy_slots_last l x cap : length l < cap -> destroy (slots (l ++ [x]) cap) (length l) = Ok (slots l cap).
+Proof. intros H. rewrite <- slots_snoc by lia. rewrite destroy_mid'. now rewrite <- slots_split by lia. Qed.
+
+Lemma destroy_loop_slots_all l cap n : length l <= cap ->
+  destroy_loop (length l) 0 n (slots l cap) = Ok (repeat None cap, destroy_evs n 0 (length l)).
+Proof.
+  intros H. pose proof (destroy_loop_gen l n [] (repeat None (cap - length l))) as D.
+  cbn [app length] in D. unfold slots. rewrite D. rewrite <- repeat_app. do 3 f_equal. lia.
+Qed.
+
+Lemma destroy_loop_slots_tail l k cap n : k < length l -> length l <= cap ->
+  destroy_loop (length l - k) k n (slots l cap) = Ok (slots (firstn k l) cap, destroy_evs n k (length l - k)).
+Proof.
+  intros Hk H.
+  assert (Hsplit : slots l cap = map Some (firstn k l) ++ map Some (skipn k l) ++ repeat None (cap - length l)).
+  { unfold slots. rewrite app_assoc, <- map_app, firstn_skipn. reflexivity. }
+  rewrite Hsplit.
+  rewrite (destroy_loop_at (skipn k l) n (map Some (firstn k l)) (repeat None (cap - length l)) k (length l - k))
+    by (rewrite ?map_length, ?firstn_length, ?skipn_length; lia).
+  f_equal. f_equal. unfold slots. rewrite firstn_length, Nat.min_l by lia. rewrite <- repeat_app. do 2 f_equal. lia.
+Qed.
+
+Lemma map_repeat {A B} (f : A -> B) x k : map f (repeat x k) = repeat (f x) k.
+Proof. induction k as [|k IH]; [reflexivity|]. cbn [repeat map]. now rewrite IH. Qed.
+
+Lemma fill_loop_slots l k x cap n : length l <= k -> k <= cap ->
+  fill_loop (k - length l) (length l) n (slots l cap) x =
+  Ok (slots (l ++ repeat x (k - length l)) cap, fill_evs n (length l) (k - length l)).
+Proof.
+  intros Hk H.
+  assert (Hsplit : slots l cap = map Some l ++ repeat None (k - length l) ++ repeat None (cap - k)).
+  { unfold slots. rewrite <- repeat_app. do 2 f_equal. lia. }
+  rewrite Hsplit.
+  rewrite (fill_loop_at (k - length l) n (map Some l) (repeat None (cap - k)) x (length l)) by (now rewrite map_length).
+  f_equal. f_equal. unfold slots. rewrite map_app, app_length, repeat_length, <- app_assoc, map_repeat.
+  do 3 f_equal. lia.
+Qed.
